@@ -49,7 +49,13 @@ def prior_matrix(prior, pairs, seed):
     return np.eye(d)
   if prior == "covariance":
     X = np.unique(np.vstack(pairs), axis=0)
-    return np.linalg.inv(np.atleast_2d(np.cov(X, rowvar=False)))
+    C = np.atleast_2d(np.cov(X, rowvar=False))
+    w = np.linalg.eigvalsh((C + C.T) / 2)
+    if w.min() <= 1e3 * d * np.finfo(float).eps * abs(w).max():
+      # a (numerically) singular covariance has no inverse: the library refuses such a prior
+      # with LinAlgError, as documented for learners that need a strictly PD prior
+      raise np.linalg.LinAlgError("singular covariance")
+    return np.linalg.inv(C)
   if prior == "random":
     from sklearn.datasets import make_spd_matrix
     return make_spd_matrix(d, random_state=seed)
